@@ -198,6 +198,7 @@ def specs_nof(tier):
     for k in ("same-operators", "other-operators", "convertible", "inconvertible"):
         s.append(("contracts.nof_wrappers", "unit_eq", {"other_kind": k, "timeout_ms": t}))
     s.append(("contracts.nof_wrappers", "unit_small_accessors", {"timeout_ms": t}))
+    s.append(("contracts.nof_wrappers", "unit_applyfunc", {"timeout_ms": t}))
     from contracts.nof_from_expr import VALIDATOR_LAYOUTS as _VL
     for k in _VL:
         s.append(("contracts.nof_from_expr", "unit_validate_operators", {"layout_name": k, "timeout_ms": t}))
